@@ -113,7 +113,8 @@ def check_hamiltonian(seq, R, proj, nq, times=None):
     if levels is None or (nq, tuple(levels)) not in _TERMS:
         return [("C05.Hamiltonian", {"clause": "unknown_basis", "basis_name": sim.basis_name})]
     reg = seq.register
-    coords = [np.asarray(_arr(reg.qubits[f"q{k}"]), dtype=float) for k in range(1, nq + 1)]
+    rids = list(reg.qubit_ids)      # position k <-> id rids[k - 1] (ids need not be q<k>)
+    coords = [np.asarray(_arr(reg.qubits[rids[k - 1]]), dtype=float) for k in range(1, nq + 1)]
     in_xy = proj["mode"] == "xy"
     c6 = float(seq.device.interaction_coeff)
     c3 = float(seq.device.interaction_coeff_xy or 0.0)
@@ -155,19 +156,51 @@ def check_hamiltonian(seq, R, proj, nq, times=None):
               if H.shape == Href.shape:
                   try:
                       from pulser.sampler import sampler as _s
-                      nd = _s.sample(seq).to_nested_dict(all_local=False)
-                      # drive coefficient the implementation's own per-atom view implies:
-                      # global part + local part, each with its own (summed) phase array
+                      # the drive coefficient under the recorded defect, computed from the CHANNEL samples
+                      # (checked against the reference by C06), not from the per-atom view itself: per
+                      # bucket the amplitudes AND the phase arrays of all contributing channels are summed
+                      ss = _s.sample(seq)
+                      maxd = ss.max_duration
+                      mk = ss._slm_mask
+                      Gb, Lb = {}, {}
+                      for chname, smp in zip(ss.channels, ss.samples_list):
+                          cs = smp.extend_duration(maxd) if smp.duration != maxd else smp
+                          obj = ss._ch_objs[chname]
+                          basis = obj.basis
+                          is_dmm = type(obj).__name__ == "DMM"
+                          xy_ = basis == "XY"
+                          if t >= len(cs.amp):
+                              continue
+                          if obj.addressing == "Global" and not is_dmm:
+                              start_t = mk.end if xy_ else 0
+                              if t >= start_t:
+                                  g = Gb.setdefault(basis, [0.0, 0.0])
+                                  g[0] += float(cs.amp[t])
+                                  g[1] += float(cs.phase[t])
+                              elif cs.slots:
+                                  for q_ in set(cs.slots[0].targets) - set(mk.targets):
+                                      l_ = Lb.setdefault((basis, q_), [0.0, 0.0])
+                                      l_[0] += float(cs.amp[t])
+                                      l_[1] += float(cs.phase[t])
+                          else:
+                              for sl_ in cs.slots:
+                                  for q_ in sl_.targets:
+                                      ti_ = sl_.ti
+                                      if xy_ and q_ in mk.targets:
+                                          ti_ = max(ti_, mk.end)
+                                      if ti_ <= t < sl_.tf:
+                                          l_ = Lb.setdefault((basis, q_), [0.0, 0.0])
+                                          l_[0] += float(cs.amp[t])
+                                          l_[1] += float(cs.phase[t])
                       coef = {}
-                      for basis in set(nd.get("Global", {})) | set(nd.get("Local", {})):
+                      for basis in {b_ for b_ in Gb} | {k_[0] for k_ in Lb}:
                           for q in range(1, nq + 1):
                               z = 0j
-                              g = nd.get("Global", {}).get(basis)
-                              if g is not None and t < len(g["amp"]):
-                                  z += g["amp"][t] / 2 * np.exp(-1j * g["phase"][t])
-                              lq = nd.get("Local", {}).get(basis, {}).get(f"q{q}")
-                              if lq is not None and t < len(lq["amp"]):
-                                  z += lq["amp"][t] / 2 * np.exp(-1j * lq["phase"][t])
+                              if basis in Gb:
+                                  z += Gb[basis][0] / 2 * np.exp(-1j * Gb[basis][1])
+                              l_ = Lb.get((basis, rids[q - 1]))
+                              if l_ is not None:
+                                  z += l_[0] / 2 * np.exp(-1j * l_[1])
                               coef[(basis, q)] = z
                       Halt = Href.copy()
                       for (r_, c_, kind, basis, i_, j_) in _TERMS[(nq, tuple(levels))]:
